@@ -10,7 +10,7 @@ From JP Require Import Bytes Json Text Strings Den Pointer Rfc6902 ImplV5 Decode
 Definition ngood (n : node) : Prop := nwf n /\ nlit n.
 Definition cval (c : con) : ojson := aval (node_of_con c).
 Definition cgood (c : con) : Prop :=
-  ngood (node_of_con c) /\ match c with KDocNil _ => False | _ => True end.
+  ngood (node_of_con c) /\ match c with KDocNil _ _ => False | _ => True end.
 
 Lemma ngood_nil : ngood NNil. Proof. split; exact I. Qed.
 
@@ -1232,7 +1232,7 @@ Proof.
   assert (Start : exists c, (match t with
                              | TObj ms => let (k, ob) := doc_of ms in Ok (RCon (KDoc (NRaw t) k ob))
                              | TArr l => Ok (RCon (KAry (NRaw t) (map child l)))
-                             | TNull => Ok (RCon (KDocNil (NRaw t)))
+                             | TNull => Ok (RCon (KDocNil (NRaw t) (o_stale o)))
                              | _ => Err EDecode
                              end) = Ok (RCon c) /\ cgood c /\ cval c = den t).
   { destruct t; try discriminate.
